@@ -127,7 +127,7 @@ def gen_case(chk, i):
         out.append("thread"); out.extend(ops); out.append("end")
     out.append("fini")
     return {"case": i, "mode": mode, "threads": nth, "targets": infos[0]["targets"],
-            "tmpdir": (i % 5 == 4), "script": "\n".join(out) + "\n"}
+            "tmpdir": (i % 5 == 4), "shortwrite": (i if i % 4 == 3 else 0), "script": "\n".join(out) + "\n"}
 
 
 def validate_stream(sdir):
@@ -188,6 +188,9 @@ def run_case(i):
     out = {"i": i, "mode": info["mode"], "viol": None, "inconclusive": None, "events": 0, "markers": 0,
            "targets": info["targets"], "threads": info["threads"]}
     env = {}
+    if info.get("shortwrite"):
+        # the kernel may always return short writes: still a conformant run
+        env["RTDRV_SHORTWRITE"] = str(info["shortwrite"])
     if info["tmpdir"]:
         env["OVNI_TMPDIR"] = os.path.join(wd, "tmp")
         os.makedirs(env["OVNI_TMPDIR"])
